@@ -16,7 +16,7 @@ from mcv import core, bfs
 PROPERTY = 'C07'
 LEVEL = 'model_checking'
 
-CLASSES = ['a', 'A', 'b']
+CLASSES = ['a', 'A', 'b', '']      # the blank class is a class like any other (indexed under '')
 NAMES = ['', 'n', 'N', 'm', 'a', 'Stra\u00dfe']     # 'a' is also a classname: a name and a class may coincide
 QUERIES = ['n', 'N', 'n*', 'm', 'a', 'A', 'b', '', '*', 'worldspawn', 'info_null', 'strasse', 'STRASSE', 'stra*']
 MAXH = 3
